@@ -398,3 +398,9 @@ def replay(case, acc):
 
 def unit_test(case):
     return "# library (names from mc/checks/c16.py universe), block_type_order, preserve_comments_on_top:\n# " + repr(case) + "\n"
+
+
+def ENV_SHARDS(tier):
+    """The broad, cheap families: run again in a fresh interpreter per environment (engine.run_environments)."""
+    return [s for s in shards('quick') if s[0] in ("short", "special", "leak")]
+
